@@ -285,7 +285,7 @@ CHECKS = {
     "C20": dict(
         text=("Theorems (Props/C20.lean): construct_get + entry_spec (given value at the id's column, else the declared default: "
               "callable / lower bound / NaN; unknown ids never looked up), fromListBool_get, fromListInt_get + idxOf_first "
-              "(1-based first position), toList_mem, varIndices_partition + varIndices_range (bool/int index sets partition "
+              "(1-based first position), toList_mem, const_column_is_integer, varIndices_partition + varIndices_range (bool/int index sets partition "
               "the columns by bounds = (0,1)), splitRow_spec. Tie: construct (all dtype/default combinations), both "
               "from_list's (flat and nested), to_list, the index properties and A/b of a polyhedron compared with the model "
               "on variable lists with ascii/unicode/int/tuple ids."),
